@@ -179,7 +179,14 @@ func (c *Client) ABCIQueryWithOptions(ctx context.Context, path string, data tmb
 			return nil, fmt.Errorf("verify value proof: %w", err)
 		}
 	} else { // OR validate the absence proof against the trusted header.
-		err = c.prt.VerifyAbsence(resp.ProofOps, l.AppHash, string(resp.Key))
+		if c.keyPathFn == nil {
+			return nil, errors.New("please configure Client with KeyPathFn option")
+		}
+		kp, err := c.keyPathFn(path, resp.Key)
+		if err != nil {
+			return nil, fmt.Errorf("can't build merkle key path: %w", err)
+		}
+		err = c.prt.VerifyAbsence(resp.ProofOps, l.AppHash, kp.String())
 		if err != nil {
 			return nil, fmt.Errorf("verify absence proof: %w", err)
 		}
